@@ -192,6 +192,11 @@ func Zero(v any) string {
 '''
 
 
+# byte/rune spellings are used only when the compiler survives the witness of finding C04-basic-alias-spelling-dce
+# (decided at the start of every run by compiling that witness)
+BASIC_ALIAS_SPELLINGS = True
+
+
 def is_closed(t):
     k = t[0]
     if k == 'b':
@@ -683,7 +688,7 @@ class Render:
                 return "main.X" if for_string else "X"
             if t[1].startswith("base.") and pkg == 1 and not for_string:
                 return t[1][5:]
-            if rng is not None and t[1] in SPELLINGS:
+            if rng is not None and t[1] in SPELLINGS and (BASIC_ALIAS_SPELLINGS or t[1] not in ("uint8", "int32")):
                 return rng.choice(SPELLINGS[t[1]])
             return t[1]
         if k == 'o':
@@ -993,6 +998,7 @@ WITNESSES = [
     ('local-type-independent-in-slice', "local-type-in-composite-type", {"main.go": 'package main\n\nfunc g[T any](x T) int {\n\ttype cell struct{ v T }\n\ttype tag struct{}; _ = []tag{{}}\n\treturn 1\n}\n\nfunc main() { println(g[int](1), g[string]("a")) }\n'}),
     ('local-generic-type-self-pointer', "local-type-in-composite-type", {"main.go": 'package main\n\nfunc g[T any](x T) int {\n\ttype cell struct{ v T }\n\ttype node[U any] struct{ next *node[U]; v T }; _ = node[int]{}\n\treturn 1\n}\n\nfunc main() { println(g[int](1), g[string]("a")) }\n'}),
     ("same-named-local-types-across-packages", "same-named-local-types-across-packages", {"p1/p1.go": 'package p1\n\nfunc D[T any]() any { return (*T)(nil) }\n', "main.go": 'package main\n\nimport "MOD/p1"\n\nfunc main() {\n\tvar a, b any\n\t{\n\t\ttype X struct{ a int }\n\t\ta = p1.D[X]()\n\t}\n\t{\n\t\ttype X struct{ a int8 }\n\t\tb = p1.D[X]()\n\t}\n\tprintln(a == b)\n}\n'}),
+    ("basic-alias-spelling-dce", "identical-type-spelling-dce", {"main.go": 'package main\n\ntype B[T any] struct{ V T }\n\nfunc (b *B[T]) Tag() string { return "B" }\n\nfunc F[T any]() string { var p *B[T]; return p.Tag() }\n\nfunc main() {\n\tprintln(F[rune]())\n\tvar q *B[int32]\n\tprintln(q.Tag())\n}\n'}),
 ]
 # controls: the neighbouring forms that must work
 CONTROLS = [
@@ -1149,6 +1155,11 @@ def run(tier, seed):
                        "programs outside the LocalFree fragment (a type declared in a generic function used inside another type) are known to fail; see findings"]
     chk.proof = C.check_proofs("C04", THEOREMS, tier)
     C.build_gvh("gvh_c04")
+    global BASIC_ALIAS_SPELLINGS
+    wsrc = next(f for (w, c, f) in WITNESSES if w == "basic-alias-spelling-dce")
+    pre = run_jobs_retry([{"id": "pre", "mod": "gvqpre", "files": dict(wsrc), "variants": ["plain"], "native": False, "timeout": 300}], 1)[0]
+    BASIC_ALIAS_SPELLINGS = progs.observe_js(pre["runs"]["plain"])[1] == "exit0"
+    chk.extra["byte_rune_spellings_enabled"] = BASIC_ALIAS_SPELLINGS
 
     # ---- substitution: code vs spec on local-free terms (driver smoke; the theorem is subst_code_eq_spec) ----
     nprog = {"quick": 14, "thorough": 90}[tier]
@@ -1236,6 +1247,8 @@ def run(tier, seed):
                 sig = None
                 if wclass == "same-named-local-types-across-packages" and obs[1] == nat[1] == "exit0":
                     sig = "C04 conflation same-named-local-types-as-type-arguments cross-package"
+                elif wclass == "identical-type-spelling-dce" and obs[1].startswith("jserror:TypeError: Cannot read properties of undefined"):
+                    sig = "C04 jserror identical-type-spelling byte-rune instance-eliminated-by-dce"
                 elif wclass and obs[1].startswith("compile-error"):
                     sig = "C04 compile-panic %s %s" % (wclass, msg_class(r["runs"][v].get("err") or obs[1]))
                 chk.add_mismatch("program:" + v, json.dumps({"id": j["id"], "mod": j["mod"], "first_diff_line": d, "files": j["files"]}),
